@@ -141,18 +141,23 @@ def run(ctx):
     viol = []
     imports = 0
     try:
-        jobs = [("missing", 0, root, data)] + [("cut", n, root, data) for n in pts]
+        jobs = [("cut", N, root, data), ("missing", 0, root, data)] + [("cut", n, root, data) for n in pts]      # first job: the intact cache (reference)
         results = pmap(trial, jobs, procs=16, chunksize=1) if len(jobs) >= 400 else None
         if results is None:
             import multiprocessing as mp
             with mp.get_context("fork").Pool(16) as pool:
                 results = pool.map(trial, jobs, chunksize=1)
+        intact = results[0][2][0].get("table") if results and results[0][2][0].get("import") == "ok" else None
         for kind, n, outs in results:
             imports += 2
             o1, o2 = outs
             why = None
-            if o1.get("import") != "ok":
+            if intact is None:
+                why = "import fails with the intact cache: %s" % (results[0][2][0].get("import"),)
+            elif o1.get("import") != "ok":
                 why = "import fails with the cache %s: %s" % ("missing" if kind == "missing" else "cut at %d bytes" % n, o1.get("import"))
+            elif o1["table"] != intact:
+                why = "the timezone table differs from the one the intact cache yields (%s entries instead of %s)" % (o1["table"][1], intact[1])
             elif o1["table"] != o1["rebuilt"]:
                 why = "table after recovery differs from the table rebuilt from the definitions"
             elif isinstance(o1.get("file"), str):
